@@ -5,7 +5,7 @@ from rules import c09
 ST = 'gse_encap::EncapStatus'
 
 
-def run(ck, writers=('encap', 'encap_frag', 'encap_ext'), pid_rules='C06'):
+def run(ck, writers=('encap', 'encap_frag', 'encap_ext'), pid_rules='C06', floors=(20, 12, 60)):
     f = ck.facts
     n_hdr = n_ret = n_rows = 0
     for wname in writers:
@@ -148,9 +148,9 @@ def run(ck, writers=('encap', 'encap_frag', 'encap_ext'), pid_rules='C06'):
         for part in seen_fields:
             if part[0] in ('IntermediateFragPkt', 'EndFragPkt') and part[1] != 'ReUse':
                 ck.finding(f'{pid_rules}.R6', ENC + wname, f"fragment-label-type:{part}", f"{wname}: {part[0]} emitted with label type {part[1]} (must be 11: it reads as padding or a labelled packet otherwise)")
-    ck.rule(f'{pid_rules}.R1 generate_gse_header calls in emitters', n_hdr, 20)
-    ck.rule(f'{pid_rules}.R2/R3/R5 Ok returns of emitters', n_ret, 12)
-    ck.rule(f'{pid_rules}.R3/R4 writes into the output buffer classified against the spec table', n_rows, 60)
+    ck.rule(f'{pid_rules}.R1 generate_gse_header calls in emitters', n_hdr, floors[0])
+    ck.rule(f'{pid_rules}.R2/R3/R5 Ok returns of emitters', n_ret, floors[1])
+    ck.rule(f'{pid_rules}.R3/R4 writes into the output buffer classified against the spec table', n_rows, floors[2])
     return None
 
 
